@@ -28,6 +28,7 @@ import (
 	banktypes "github.com/cosmos/cosmos-sdk/x/bank/types"
 	"github.com/tidwall/gjson"
 
+	randommod "mods.irisnet.org/modules/random"
 	randomkeeper "mods.irisnet.org/modules/random/keeper"
 	randomtypes "mods.irisnet.org/modules/random/types"
 	servicekeeper "mods.irisnet.org/modules/service/keeper"
@@ -40,7 +41,9 @@ import (
 // ---- history vocabulary ----
 
 type Step struct {
-	Op string `json:"op"` // req | block | respond | drain
+	Op string `json:"op"` // req | block | respond | drain | gload | reimport
+	// gload: a pending request loaded through the module's InitGenesis (C, N as for req)
+	Fake int `json:"fake,omitempty"` // 0: oracle, unknown 40-byte context id; 1: oracle, unknown short context id; 2: plain request
 	// req
 	C      int    `json:"c,omitempty"`      // consumer (actor index)
 	N      uint64 `json:"n,omitempty"`      // block interval
@@ -137,8 +140,37 @@ func gen(r *lib.Rand, tier, stream string, i int) History {
 	cur := h.Start
 	const maxSecs = int64(1) << 37 // keeps every block time a valid protobuf timestamp
 	oracleShare := r.Intn(5) // 0: no oracle requests in this history
+	genesis := stream == "genesis"
+	restart := genesis || r.Chance(1, 4) // the history contains export -> import restarts of the module
+	wGload, wReimport := 0, 0
+	if genesis {
+		wGload = 2
+		// the history starts from a genesis with pending requests: oracle requests whose service context
+		// the service module does not know (they cannot be started when they fall due), plain ones
+		for k, m := 0, 1+r.Intn(4); k < m; k++ {
+			h.Steps = append(h.Steps, Step{Op: "gload", C: (k + r.Intn(2)) % nConsumers, N: uint64(r.Intn(6)), Fake: r.Weighted(5, 2, 2)})
+		}
+	}
+	if restart {
+		wReimport = 1
+	}
+	pattern := -1
+	if restart && r.Chance(2, 3) {
+		pattern = r.Intn(n)
+	}
 	for k := 0; k < n; k++ {
-		switch r.Weighted(10, 6, 4, 1) {
+		if k == pattern {
+			// at the restart two requesters, and one requester from two blocks, are pending for one height
+			a, b := r.Intn(nConsumers), r.Intn(nConsumers-1)
+			if b >= a {
+				b++
+			}
+			d := uint64(2 + r.Intn(3))
+			h.Steps = append(h.Steps, Step{Op: "req", C: a, N: d}, Step{Op: "req", C: b, N: d, Oracle: r.Chance(1, 3), Cap: price},
+				Step{Op: "block", Dt: int64(r.Intn(3)), App: lastApp, Nanos: 1}, Step{Op: "req", C: a, N: d - 1}, Step{Op: "reimport"})
+			usedInBlock = map[int]bool{a: true}
+		}
+		switch r.Weighted(10, 6, 4, 1, wGload, wReimport) {
 		case 0: // request
 			s := Step{Op: "req", C: r.Intn(nConsumers)}
 			// mostly a requester that has not asked in this block yet (the id scheme's limit); a second
@@ -241,6 +273,12 @@ func gen(r *lib.Rand, tier, stream string, i int) History {
 			h.Steps = append(h.Steps, s)
 		case 3:
 			h.Steps = append(h.Steps, Step{Op: "drain", C: r.Intn(nConsumers)})
+		case 4:
+			c := r.Intn(nConsumers)
+			usedInBlock[c] = true
+			h.Steps = append(h.Steps, Step{Op: "gload", C: c, N: uint64(r.Intn(6)), Fake: r.Weighted(5, 2, 2)})
+		case 5:
+			h.Steps = append(h.Steps, Step{Op: "reimport"})
 		}
 	}
 	// let everything fall due: a tail of blocks
@@ -297,6 +335,7 @@ type runner struct {
 	addr   map[string]int
 	rec    []string // callbacks recorded since the last reset
 	steps  []string
+	cdc    codec.Codec
 	lastN  int // results present at the previous observation
 	curApp []byte
 }
@@ -438,6 +477,7 @@ func exec(h History) lib.Case {
 	r.e = lib.NewEnv(lib.EnvOpts{NActors: nActors, Balances: bal, Consumers: []interface{}{&r.rk, &r.sk},
 		StartTime: time.Unix(h.Start, 0).UTC(),
 		Merge: func(cdc codec.Codec, state simapp.GenesisState) simapp.GenesisState {
+			r.cdc = cdc
 			var gs servicetypes.GenesisState
 			cdc.MustUnmarshalJSON(state[servicetypes.ModuleName], &gs)
 			gs.Definitions = append(gs.Definitions, servicetypes.GetRandomSvcDefinition())
@@ -500,6 +540,10 @@ func exec(h History) lib.Case {
 			}
 		case "respond":
 			r.doRespond(st)
+		case "gload":
+			r.doGload(st)
+		case "reimport":
+			r.doReimport()
 		case "drain":
 			a := e.Actors[st.C]
 			b := e.Balance(a, "stake")
@@ -631,6 +675,94 @@ func (r *runner) doReq(st Step) {
 	}
 	term := lib.App("Req", lib.Z(int64(cidx)), lib.ZB(new(big.Int).SetUint64(st.N)), lib.B(st.Oracle), lib.B(st.Bad != 2), lib.Z(int64(txi)), svc)
 	r.emit(term, o.Code(), nil, fmt.Sprintf("h%d req c%d n=%d oracle=%v cap=%d bad=%d -> %s %s", e.Height, st.C, st.N, st.Oracle, st.Cap, st.Bad, o.Kind, short(o.Err)))
+}
+
+// doGload loads one pending request through the random module's InitGenesis, as a genesis file
+// (or an upgrade handler) would: an oracle request whose service context the service module
+// does not know, or a plain request.  In the model's vocabulary this is exactly an accepted
+// request of the current block (InitGenesis enqueues the request under the given height with
+// the id derived from it); the context id is "what RequestService returned".
+func (r *runner) doGload(st Step) {
+	e := r.e
+	consumer := e.Actors[st.C].String()
+	seq := len(r.steps)
+	txh := sha([]byte(fmt.Sprintf("genesis-tx-%d", seq)))
+	txi := r.txs.Id(string(txh))
+	rq := randomtypes.Request{Height: e.Height, Consumer: consumer, TxHash: hex.EncodeToString(txh)}
+	svc := "None"
+	oracle := st.Fake != 2
+	if oracle {
+		d := sha([]byte(fmt.Sprintf("unknown-context-%d", seq)))
+		bz := append(append([]byte{}, d...), d[:8]...) // the length of a real context id
+		if st.Fake == 1 {
+			bz = d[:4]
+		}
+		rq.Oracle = true
+		rq.ServiceFeeCap = sdk.NewCoins(sdk.NewCoin("stake", sdkmath.NewInt(price)))
+		rq.ServiceContextID = tmbytes.HexBytes(bz).String()
+		iid := r.ctxIDs.Id(strings.ToLower(rq.ServiceContextID))
+		svc = lib.App("Some", lib.Z(int64(iid)))
+		if _, known := r.ctxBy[iid]; !known {
+			sc := &svcCtx{iid: iid, bz: bz, consumer: st.C}
+			r.ctxBy[iid] = sc
+			r.ctxs = append(r.ctxs, sc)
+		}
+	}
+	due := e.Height + int64(st.N)
+	gs := randomtypes.GenesisState{PendingRandomRequests: map[string]randomtypes.Requests{
+		fmt.Sprintf("%d", due): {Requests: []randomtypes.Request{rq}}}}
+	r.rec = nil
+	o := e.Try(func(ctx sdk.Context) error { randommod.InitGenesis(ctx, r.rk, gs); return nil })
+	lib.Stat(r.c.Stats, fmt.Sprintf("op:gload-%d", st.Fake))
+	lib.Stat(r.c.Stats, "res:"+o.Kind)
+	if o.OK() {
+		idHex := hex.EncodeToString(sha(append(sdk.Uint64ToBigEndian(uint64(e.Height)), []byte(consumer)...)))
+		r.ridOf[idHex] = [2]int64{e.Height, int64(st.C)}
+		r.issued = append(r.issued, issued{h: e.Height, c: st.C, idHex: idHex})
+	}
+	term := lib.App("Req", lib.Z(int64(st.C)), lib.ZB(new(big.Int).SetUint64(st.N)), lib.B(oracle), "true", lib.Z(int64(txi)), svc)
+	r.emit(term, o.Code(), nil, fmt.Sprintf("h%d genesis-load c%d n=%d kind=%d -> %s %s", e.Height, st.C, st.N, st.Fake, o.Kind, short(o.Err)))
+}
+
+// doReimport restarts the module's pending queue through its genesis: ExportGenesis, (through
+// JSON,) the queue wiped, InitGenesis of what was exported.  Results and oracle requests are not
+// part of the module's genesis; they stay in place.  For the model nothing happens.
+func (r *runner) doReimport() {
+	e := r.e
+	n := 0
+	r.rec = nil
+	o := e.Try(func(ctx sdk.Context) error {
+		gs := randommod.ExportGenesis(ctx, r.rk)
+		bz, err := r.cdc.MarshalJSON(gs)
+		if err != nil {
+			return err
+		}
+		var back randomtypes.GenesisState
+		if err := r.cdc.UnmarshalJSON(bz, &back); err != nil {
+			return err
+		}
+		type ent struct {
+			h  int64
+			id []byte
+		}
+		var es []ent
+		r.rk.IterateRandomRequestQueue(ctx, func(h int64, id []byte, _ randomtypes.Request) bool {
+			es = append(es, ent{h, append([]byte{}, id...)})
+			return false
+		})
+		for _, x := range es {
+			r.rk.DequeueRandomRequest(ctx, x.h, x.id)
+		}
+		n = len(es)
+		randommod.InitGenesis(ctx, r.rk, back)
+		return nil
+	})
+	lib.Stat(r.c.Stats, "op:reimport")
+	if n >= 2 {
+		lib.Stat(r.c.Stats, "reimport:2+pending")
+	}
+	lib.Stat(r.c.Stats, "res:"+o.Kind)
+	r.emit("(Calls [])", o.Code(), nil, fmt.Sprintf("h%d export -> import of %d pending -> %s %s", e.Height, n, o.Kind, short(o.Err)))
 }
 
 // deliverWithEvents = lib.Env.DeliverTx for one message (ValidateBasic, routed handler on a cache
